@@ -791,7 +791,9 @@ class CompartmentalSystem(Statement):
         )
 
     def __hash__(self):
-        return hash((self._t, self._g))
+        # NOTE: A networkx graph hashes by identity, equal systems must hash equal
+        edges = frozenset((u, v, d['rate']) for u, v, d in self._g.edges(data=True))
+        return hash((self._t, frozenset(self._g.nodes), edges))
 
     def to_dict(self) -> dict[str, Any]:
         comps = [comp for comp in self._g.nodes]
